@@ -26,7 +26,7 @@ EXPLANATION = ("Theorems: each ballot's allocated points sum to the vector total
                "below a non-elected one. Correspondence: the four utilities and three rules run on the same inputs "
                "as the Lean definitions. Monitors: per-profile point total and independent reference scoring.")
 
-N_QUICK, N_THOROUGH = 1600, 19200
+N_QUICK, N_THOROUGH = 1600, 57600
 
 
 def gen_vector(rng, n):
